@@ -4,30 +4,43 @@ import json, collections
 READY = True
 
 META = {
-    "technique": "Lean 4 proof (helper matrix by kernel evaluation of rows regenerated from utils.rs; monotonicity lifted "
-                 "over an abstract mode-indexed machine to a hand model of the VM sites) + 4-mode differential runs of "
-                 "generated programs and of every builtin with possibly-undefined operands",
+    "technique": "Lean 4 proof (helper matrix by kernel evaluation of rows regenerated from utils.rs; every mode-dependent "
+                 "part of the VM model is a free-monad computation over helper questions, so monotonicity is one generic "
+                 "lemma lifted to runs of an abstract machine; argument-conversion layer and builtin signatures extracted "
+                 "from argtypes.rs / filters.rs / tests.rs / functions.rs) + 4-mode differential runs of generated programs "
+                 "and of every builtin with possibly-undefined operands",
     "category": "proof",
-    "text": "Kernel-checked theorems: the four UndefinedBehavior helpers (rows re-extracted from utils.rs on every run) are the "
-            "documented matrix and are monotone in Chainable <= Lenient <= SemiStrict <= Strict; every instruction of the VM "
-            "model consults the mode only through monotone checks (StepMono), so any run that succeeds under a mode ends in "
-            "the identical state and output under every weaker mode (mono, by induction on the run of an abstract machine "
-            "whose next step depends on the state alone); the per-site matrix (print/iterate fail under Strict+SemiStrict "
-            "only, truth tests under Strict only, attribute/item access everywhere but Chainable, is defined / is undefined / "
-            "default never). The VM model is tied to /repo by executing the REAL compiled instruction streams of generated "
-            "programs under all four modes and comparing outputs, and by a regenerated table of the helper calls per "
-            "instruction arm of eval_impl. The property itself is evaluated on the real engine: pairwise monotonicity of the "
-            "four results of every generated program and of every builtin filter/test/function with undefined / silent "
-            "undefined / none / containers of undefined in each argument position, plus the documented matrix on dedicated "
-            "site templates (default and custom formatter).",
+    "text": "Kernel-checked theorems: the UndefinedBehavior helpers and the inline mode tests of Emit / Slice / "
+            "Environment::format (rows re-extracted on every run) are the documented matrix and monotone in Chainable <= "
+            "Lenient <= SemiStrict <= Strict; any computation that consults the mode only by asking those helpers is "
+            "monotone, mode-independent in its result, and a stricter mode can only add the UndefinedError of one of its "
+            "questions (comp_mono, comp_agree, comp_only_adds_undefined_errors); the VM model (about 60 instructions incl. "
+            "macros, call blocks, caller(), kwargs, loop.*, includes of named templates, blocks without inheritance, "
+            "running nested calls inside the machine) is built from such computations, so any run that succeeds under a mode "
+            "ends in the identical state and observed output under every weaker mode, for every choice of the abstract "
+            "mode-independent operations (mono_vm, mono_programs over real instruction streams accepted by the decidable "
+            "inFragment check that the driver evaluates per program; vm_strict_failure: an error added by a stricter mode is "
+            "the helper question of the failing instruction); the argument conversion layer interpreted from the extracted "
+            "ArgType table (arg_conversion_table / _mono) and every registered builtin called through its extracted "
+            "signature (builtin_mono_of_sig; pure_builtin_independent_after_conversion for the builtins whose source never "
+            "reaches the mode; builtin_sites_as_modelled lists the ones that do); the per-site matrix. Ties: the model runs "
+            "the REAL compiled instruction streams of the generated programs (outputs compared under all four modes, three "
+            "custom formatters included); the signature layer predicts, for every builtin call of the call/sweep streams, "
+            "which modes fail in the conversion and that pure bodies agree across the modes that pass it (compared with the "
+            "engine); regenerated tables of helper calls per instruction arm and per builtin. The property itself is "
+            "evaluated on the real engine: pairwise monotonicity of the four results of every case, plus the documented "
+            "matrix on dedicated site templates.",
     "design_ref": "DESIGN.md §3 C12",
-    "level_note": "Trusted: Lean kernel; lib/tables/c12.py (translator of the helper match rows, the inline mode tests of "
-                  "Emit/Slice/Environment::format and the helper-call list per instruction arm); the hand model of the "
-                  "mode-independent part of each instruction (validated by the correspondence stream only). BUILTIN "
-                  "FILTERS AND TESTS ARE COVERED BY THE DIFFERENTIAL STREAM ONLY, except the few modelled in "
-                  "filterGuard/testGuard (default, d, int, float, string, bool, list, min, max, sum, upper, lower, trim, attr, "
-                  "test `in`): for all others monotonicity is validated on the enumerated operand pool, not proved. Macros, "
-                  "calls, includes/blocks, loop.* and `**kwargs` merging are outside the model (oracle only).",
+    "level_note": "Trusted: Lean kernel; lib/tables/c12.py (translator: helper match rows, inline mode tests, helper-call "
+                  "lists per instruction arm and per builtin, ArgType impl classification, builtin signatures and their "
+                  "reachability of the mode by regex + local call graph). The mode-independent operations are either hand "
+                  "models validated by the correspondence stream only, or abstract parameters (Ops): for the builtins whose "
+                  "source reaches the mode and that are NOT modelled by hand (escape/e, replace, sort, batch, slice, unique, "
+                  "select/reject(attr), map, format, float) the theorems assume that the body consults the mode only through "
+                  "the helper questions (nested filter/test calls and Environment::format included) -- monotonicity of these "
+                  "is validated by the differential streams, not derived from their source. Outside the model: template "
+                  "inheritance (extends/super), recursive loops, `*args` calls, from-imports, tuples, floats, safe strings, "
+                  "auto-escaping, filters/tests added by the embedding application.",
 }
 
 MODES = ["chainable", "lenient", "semistrict", "strict"]
@@ -121,7 +134,9 @@ def run(r):
               "ternary with and without else, comparisons and chains, in, ~, + - *, tests, filters; the `rich` half adds macros, "
               "filter blocks, loop.*, range, dict(**), more builtins). Each case = 4 renders. A case is non-trivial when the "
               "four results are not all identical (the mode matters).")
-    r.assumptions = ["builtin filters/tests not modelled in Lean are monotone beyond the enumerated operand pool (validated, not proved)",
+    r.assumptions = ["the bodies of the mode-reaching builtins that are not modelled by hand consult the mode only through the helper "
+                     "questions (validated on the enumerated operand pool, not proved from their source)",
+                     "the extracted signatures / ArgType classification / reachability tables describe the source (regex translator)",
                      "the mode-independent part of each modelled instruction is as validated by the correspondence on the generated programs",
                      "Environment::set_undefined_behavior is the only way the mode reaches the engine (state.undefined_behavior())"]
     st = r.regen_tables(NEEDED)
